@@ -412,6 +412,24 @@ func Gen(seed uint64) *Scen {
 	default:
 		s.Stdin = sim.Bytes(g.Scalar())
 	}
+	if !chain && r.P(40) {
+		// a large document: beyond one pipe buffer (64 KiB) and beyond bufio defaults
+		var sb strings.Builder
+		sb.WriteString("[")
+		n := 3000 + r.Intn(12000)
+		for i := 0; i < n; i++ {
+			if i > 0 {
+				sb.WriteString(",\n")
+			}
+			fmt.Fprintf(&sb, `{"i":%d,"v":"%s"}`, i, strings.Repeat("x", r.Intn(20)))
+		}
+		sb.WriteString("]\n")
+		s.Stdin = sim.Bytes(sb.String())
+		doc = `[{"i":0,"v":""},{"i":1,"v":""}]`
+	} else if r.P(60) {
+		// pretty-printed, multi-line input
+		s.Stdin = sim.Bytes(strings.ReplaceAll(strings.ReplaceAll(string(s.Stdin), ",", ",\r\n "), "{", "{\n"))
+	}
 	if r.P(600) && len(s.Stdin) > 1 {
 		for left := len(s.Stdin); left > 0 && len(s.Chunks) < 40; {
 			n := 1 + r.Intn(64)
@@ -420,6 +438,9 @@ func Gen(seed uint64) *Scen {
 		}
 	}
 	n := r.Intn(6)
+	if r.P(50) {
+		n = 6 + r.Intn(7)
+	}
 	step := 0
 	for i := 0; i < n; i++ {
 		name := fmt.Sprintf("p%d.json", i)
